@@ -112,6 +112,12 @@ class PendingIntEntry:
     validator: Validator
     implicit_sha256: enc.BinaryStr = b''
     task: aio.Task | None = None
+    # When the lifetime runs out, on the event loop's clock (``deadline`` is the same instant on the wall clock, which may be stepped)
+    expire_at: float = 0.0
+
+    def __post_init__(self):
+        if not self.expire_at:
+            self.expire_at = aio.get_running_loop().time() + (self.deadline - utils.timestamp()) / 1000.0
 
     async def satisfy(self, data: types.DataTuple):
         name, meta_info, content, sig, raw_packet = data
@@ -134,7 +140,7 @@ class PendingIntEntry:
             # Cannot reproduce the scenario. Especially, delay in validator() does not trigger the race condition
             # But anyway, let me add a guard check here.
             return
-        if utils.timestamp() > self.deadline:
+        if aio.get_running_loop().time() > self.expire_at:
             # The verdict came after the lifetime ran out while nobody was awaiting the result: it is a timeout.
             return
         if valid == ValidResult.PASS or valid == ValidResult.ALLOW_BYPASS:
@@ -360,6 +366,8 @@ class NDNApp:
             deadline = utils.timestamp() + param.lifetime
         else:
             deadline = utils.timestamp() + DEFAULT_LIFETIME
+        loop = aio.get_running_loop()
+        expire_at = loop.time() + (deadline - utils.timestamp()) / 1000.0
         context = {
             'int_param': param,
             'pit_token': pit_token,
@@ -369,8 +377,7 @@ class NDNApp:
         }
 
         def reply(data: enc.BinaryStr) -> bool:
-            now = utils.timestamp()
-            if now > deadline:
+            if loop.time() > expire_at:
                 self.logger.warning('Deadline passed, unable to reply to %s', enc.Name.to_str(name))
                 return False
             if pit_token is None:
@@ -566,6 +573,7 @@ class NDNApp:
             deadline += interest_param.lifetime
         else:
             deadline += DEFAULT_LIFETIME
+        expire_at = aio.get_running_loop().time() + (deadline - utils.timestamp()) / 1000.0
         node.append_interest(future, deadline, interest_param, validator, implicit_sha256)
         try:
             self.face.send(raw_interest)
@@ -574,11 +582,12 @@ class NDNApp:
             if node.timeout(future) and self._pit.get(node_name) is node:
                 del self._pit[node_name]
             raise
-        return self._wait_for_data(future, deadline, node_name, node)
+        return self._wait_for_data(future, expire_at, node_name, node)
 
-    async def _wait_for_data(self, future: aio.Future, deadline: int, node_name: enc.FormalName,
+    async def _wait_for_data(self, future: aio.Future, expire_at: float, node_name: enc.FormalName,
                              node: InterestTreeNode):
-        lifetime = deadline - utils.timestamp()
+        # The lifetime is a duration: it is measured on the event loop's clock, not on the wall clock (which may be stepped)
+        lifetime = (expire_at - aio.get_running_loop().time()) * 1000.0
         if lifetime <= 0:
             # This happens if the application sends an Interest, does some calculation, and then fetches the result.
             # The Interest should be satisfied now. Thus, it should not be considered as an error:
